@@ -177,6 +177,23 @@ def run_length(ctx, p):
     ctx.nontrivial('length', e['name'], str(pos), n, form)
 
 
+def run_length2(ctx, p):
+    """two vector arguments of fixed lengths, BOTH wrong, with the right total (4+2 for 3+3 ...): rejected, not re-split"""
+    e = entry_of(p)
+    args, kwargs = list(p['args']), dict(p['kwargs'])
+    (i1, n1), (i2, n2) = p['lens']
+    form = p['form']
+    mkv = lambda n, off: gen.as_form(np.arange(1, n + 1, dtype=np.float64) * 0.25 + off, form) if n > 0 else ([] if form == 'list' else np.zeros((0,)))
+    args[i1], args[i2] = mkv(n1, 0.1), mkv(n2, 0.6)
+    o = attempt(e, args, kwargs, recv_of(p))
+    sig = dict(api=e['name'], pos='%d,%d' % (i1, i2), form=form)
+    ctx.judge('length', o[0] == 'exc', dict(sig, kind='wrong_lengths_with_right_total_accepted'),
+              lambda: '%s: vector arguments %d and %d given with %d and %d elements (%s) were accepted: %s' % (
+                  e['name'], i1, i2, n1, n2, form, core.short(o[1].data if isinstance(getattr(o[1], "data", None), list) else o[1], 300)))
+    ctx.cell('length2', e['name'], n1, n2)
+    ctx.nontrivial('length2', e['name'], n1, n2, form)
+
+
 def run_triple(ctx, p):
     e = entry_of(p)
     args, kwargs = p['args'], p['kwargs']
@@ -402,7 +419,7 @@ def run_keywords(ctx, p):
         ctx.nontrivial('keywords', e['name'], sp)
 
 
-RUNNERS = {'keywords': run_keywords, 'forms': run_forms, 'length': run_length, 'triple': run_triple, 'units': run_units, 'options': run_options, 'scalars': run_scalars}
+RUNNERS = {'length2': run_length2, 'keywords': run_keywords, 'forms': run_forms, 'length': run_length, 'triple': run_triple, 'units': run_units, 'options': run_options, 'scalars': run_scalars}
 
 
 def REACH():
@@ -443,6 +460,12 @@ def run(ctx):
                 v_ = int(rng.integers(1, 7)) * (1 if e['args'][ps][0] == 'SPOS' else int(gen.sign(rng)))
                 drive(RUNNERS, ctx, 'scalars', dict(base, pos=ps, value=v_))
             drive(RUNNERS, ctx, 'keywords', base)
+            fixed = [(i_, s_[1]) for i_, s_ in enumerate(e['args']) if s_[0] == 'V' and isinstance(s_[1], int)]
+            if len(fixed) >= 2 and 'nolength' not in e['tags']:
+                (i1, L1), (i2, L2) = fixed[0], fixed[1]
+                for k_ in (-2, -1, 1, 2):
+                    if L1 + k_ >= 0 and L2 - k_ >= 0:
+                        drive(RUNNERS, ctx, 'length2', dict(base, lens=[[i1, L1 + k_], [i2, L2 - k_]], form=['list', 'array', 'tuple'][rng.integers(3)]))
             if any(t.startswith('triple') for t in e['tags']):
                 drive(RUNNERS, ctx, 'triple', base)
             if any(t.startswith('unit_') for t in e['tags']):
